@@ -91,7 +91,7 @@ func hStepValid(st HStep) string {
 			return "malformed input"
 		}
 	case "quote":
-		if !ref.FeeQuoteEditOK(hEdit(st)) {
+		if !ref.FeeQuoteEditWideOK(hEdit(st)) {
 			return "quote outside domain"
 		}
 	case "fund":
@@ -596,6 +596,9 @@ func genHEdit(t *rapid.T, m ref.Tx) HStep {
 	switch st.Kind {
 	case "addin":
 		st.B, st.N, st.Hash = gen.Bytes(t, 32, "txid"), int(gen.U32(t, "vout")&0x7fffffff), gen.Bytes(t, 20, "pkh")
+		if rapid.IntRange(0, 9).Draw(t, "null_txid") == 4 { // all-zero previous txid (From gives the final sequence)
+			st.B = make(pbt.Hex, 32)
+		}
 		st.U64 = rapid.Uint64Range(0, 200000).Draw(t, "isats")
 	case "isats", "osats":
 		st.U64 = rapid.Uint64Range(0, 200000).Draw(t, "amount")
@@ -635,6 +638,7 @@ func genHEdit(t *rapid.T, m ref.Tx) HStep {
 		st.Tag = genFeeTag(t, "tag")
 		st.Via = genQuoteVia(t, "via")
 		st.Unit2 = genUnit(t, "unit2")
+		genEditWiden(t, &st.Unit, &st.Unit2, &st.Via)
 	case "fund":
 		n := rapid.IntRange(0, 3).Draw(t, "nutxo")
 		for i := 0; i < n; i++ {
@@ -673,6 +677,8 @@ func genHistCase(t *rapid.T) HistCase {
 		}
 		c.Tx.In = append(c.Tx.In, in)
 	}
+	c.Tx.In = gen.C10SpecialOutpoints(t, c.Tx.In)
+	nin = len(c.Tx.In)
 	if rapid.IntRange(0, 7).Draw(t, "bigcount") == 7 {
 		c.NOut = rapid.SampledFrom([]int{250, 251, 251, 252}).Draw(t, "nout")
 		c.Tx.Out = append(c.Tx.Out, genOut(t, true))
